@@ -351,9 +351,14 @@ def check(ctx: Ctx) -> None:
                         if not want <= prelude:
                             ob.violation(mod, node, f"`from __main__ import {sorted(want - prelude)}`: not bound by the shipped prelude", construct=f"__main__ import {sorted(want - prelude)}")
                         continue
-                    ok = tr is not None and any("ImportError" in unparse(h.type) for h in tr.handlers if h.type is not None) and any(node is x for x in tr.body)
+                    def _imports_execnet(x):
+                        return (isinstance(x, ast.ImportFrom) and (x.module or "").split(".")[0] == "execnet") or \
+                            (isinstance(x, ast.Import) and any(a.name.split(".")[0] == "execnet" for a in x.names))
+                    # in the try body, or in its `else` when the body itself probes the execnet import
+                    ok = tr is not None and any("ImportError" in unparse(h.type) for h in tr.handlers if h.type is not None) and \
+                        (any(node is x for x in tr.body) or (any(node is x for x in tr.orelse) and any(_imports_execnet(x) for x in tr.body)))
                     if ok:
-                        names_try = {a.asname or a.name for x in tr.body if isinstance(x, ast.ImportFrom) for a in x.names}
+                        names_try = {a.asname or a.name for x in list(tr.body) + list(tr.orelse) if isinstance(x, ast.ImportFrom) for a in x.names}
                         names_fb = {a.asname or a.name for h in tr.handlers for x in h.body if isinstance(x, ast.ImportFrom) and x.module == "__main__" for a in x.names}
                         if names_try != names_fb:
                             ok = False
